@@ -50,6 +50,13 @@ struct Env {
     struct CM { int src; int cnt; int ans; };
     std::map<int,CM> cmemo;           // completion guard id -> answer fixed for the current entry of its source state
     bool ledger_error = false; std::string ledger_msg;
+    // copy mode (C15): address ranges of the machine objects, to attribute every callback to an instance
+    const char* inst_lo[2] = {nullptr, nullptr}; const char* inst_hi[2] = {nullptr, nullptr}; bool copy_mode = false;
+    int inst_of(const void* p) const {
+        const char* c = static_cast<const char*>(p);
+        for (int i = 0; i < 2; ++i) if (inst_lo[i] && c >= inst_lo[i] && c < inst_hi[i]) return i;
+        return 2;
+    }
     int depth_in_callback = 0;
     int uncaught_escape = 0;
 
@@ -168,8 +175,10 @@ inline bool callback(char K, int id, const Ev& e, Fsm& fsm, int completion_src_s
     int k = fresh ? E.occurrence(key) : 0;
     std::string t = std::string(1, K) + ":" + std::to_string(owner) + ":" + std::to_string(id) + ":" + evtok(e) + ":" + acttok(fsm);
     bool answer = true;
-    if (K == 'N') { E.parity[id]++; E.entries[id]++; if (E.parity[id] != 1) { E.ledger_error = true; E.ledger_msg += " entry-twice:" + std::to_string(id); } }
-    if (K == 'X') { E.parity[id]--; if (E.parity[id] != 0) { E.ledger_error = true; E.ledger_msg += " exit-unentered:" + std::to_string(id); } }
+    int inst = E.copy_mode ? E.inst_of(&fsm) : 0;
+    int pid_ = id + 100000 * inst;
+    if (K == 'N') { E.parity[pid_]++; E.entries[id]++; if (E.parity[pid_] != 1) { E.ledger_error = true; E.ledger_msg += " entry-twice:" + std::to_string(id); } }
+    if (K == 'X') { E.parity[pid_]--; if (E.parity[pid_] != 0) { E.ledger_error = true; E.ledger_msg += " exit-unentered:" + std::to_string(id); } }
     if (K == 'G') {
         int c;
         if (eid == 0 && completion_src_sid >= 0) {
@@ -187,6 +196,7 @@ inline bool callback(char K, int id, const Ev& e, Fsm& fsm, int completion_src_s
         t += answer ? ":1" : ":0";
     }
     if (E.observe_flags) t += ":F" + vf_flags(fsm);
+    if (E.copy_mode) t += std::string(":I") + "ab?"[inst];
     E.tok(t);
     // deviation point: throw / nested submission
     bool pos_kind = (K == 'G' || K == 'A' || K == 'N' || K == 'X' || K == 'C' || (K == 'T' && E.submit_in_nt));
